@@ -274,9 +274,12 @@ impl Model for {name} {{
         return self.add(T(name, fixed, zero=zero, sym=sym, default=has_default,
                           depth=1 + max([t.depth for t, _ in fields] + [0])))
 
-    def transparent_struct(self, inner, before=0, after=0, tuple_struct=False, name=None):
-        """Exactly one live field; `before`/`after` skipped fields around it."""
+    def transparent_struct(self, inner, before=0, after=0, tuple_struct=False, name=None, de_only=False):
+        """Exactly one live field; `before`/`after` skipped fields around it.  `de_only`: the skipped fields
+        carry `skip_deserializing` alone (both derives key the live field of a transparent struct on that
+        flag, so such a field is absent from the encoding too although its type implements Encode)."""
         name = name or self.fresh("W")
+        skip_attr = "skip_deserializing" if de_only else "skip_serializing, skip_deserializing"
         skipped_ty = ["u8", "Vec<u16>", "u64"]
         fields = []
         for i in range(before):
@@ -286,14 +289,14 @@ impl Model for {name} {{
             fields.append((skipped_ty[(i + 1) % 3], True))
         if tuple_struct:
             decl = "pub struct %s(%s);" % (name, ", ".join(
-                ("#[ssz(skip_serializing, skip_deserializing)] pub %s" % ty) if sk else ("pub %s" % ty)
+                ("#[ssz(%s)] pub %s" % (skip_attr, ty)) if sk else ("pub %s" % ty)
                 for ty, sk in fields))
             live = "self.%d" % before
             ctor = "%s(%s)" % (name, ", ".join(
                 "Default::default()" if sk else "<%s as Model>::gen(r, size)" % ty for ty, sk in fields))
         else:
             decl = "pub struct %s {\n%s\n}" % (name, "\n".join(
-                ("    #[ssz(skip_serializing, skip_deserializing)]\n    pub f%d: %s," % (i, ty)) if sk
+                ("    #[ssz(%s)]\n    pub f%d: %s," % (skip_attr, i, ty)) if sk
                 else ("    pub f%d: %s," % (i, ty)) for i, (ty, sk) in enumerate(fields)))
             live = "self.f%d" % before
             ctor = "%s { %s }" % (name, " ".join(
@@ -315,7 +318,7 @@ impl Model for {name} {{
 """.format(name=name, decl=decl, inner=inner.rust, live=live, ctor=ctor))
         fdesc = []
         for ty_s, sk in fields:
-            fdesc.append('format!("(f {} %d %d 0 %d)", <%s as Model>::ty())' % (1 if sk else 0, 1 if sk else 0, 1 if sk else 0, ty_s))
+            fdesc.append('format!("(f {} %d %d 0 %d)", <%s as Model>::ty())' % (1 if (sk and not de_only) else 0, 1 if sk else 0, 1 if sk else 0, ty_s))
         self.defns.append(('format!("(struct 0 transparent %d{}", vec![%s].iter().map(|p: &String| format!(" {}", p)).collect::<String>()) + ")"' % (0 if tuple_struct else 1, ", ".join(fdesc)), name))
         self.note(name, [inner])
         return self.add(T(name, inner.fixed, zero=inner.zero, sym=inner.sym, default=False, depth=inner.depth + 1))
@@ -479,6 +482,13 @@ def build_fixed(g):
     g.container([(u16, {"withbe"})])
     g.container([(u32, {"withbe"}), (vec(u8), set()), (u16, {"withbe"})])
     g.container([(u8, set()), (u16, {"withbe"}), (vec(u16), {"with"}), (u32, {"withbe", "skip_ser", "skip_de"})])
+    # a custom codec on a field that is skipped in one direction only: the codec still applies in the other
+    g.container([(u8, set()), (u16, {"withbe", "skip_ser"}), (u8, set())])
+    g.container([(u8, set()), (u16, {"withbe", "skip_de"}), (u8, set())])
+    g.container([(u32, {"withbe", "skip_de"}), (vec(u8), set())])
+    g.container([(vec(u8), set()), (u32, {"withbe", "skip_ser"})])
+    g.container([(u8, set()), (vec(u16), {"with", "skip_ser"}), (u16, set())])
+    g.container([(u8, set()), (vec(u16), {"with", "skip_de"}), (u16, set())])
     # custom field codecs of another size class than the field type's own impls (decoys)
     dF = T("DecoyF", True, default=True); dV = T("DecoyV", False, default=True); dL = T("DecoyL", True, default=True)
     wd = {"withdecoy"}
@@ -507,6 +517,10 @@ def build_fixed(g):
         # the wrapper next to variable-size neighbours: its metadata feeds the parent's offsets
         g.container([(w, set()), (vec(u8), set())])
         A(tup([vec(u8), w, vec(u16)])); A(vec(w)); A(option(w))
+    # transparent structs whose skipped fields carry skip_deserializing only (round 10: A18)
+    for inner, b, a, tu in [(vec(u8), 1, 0, False), (u64, 1, 0, True), (vec(u16), 2, 1, False), (u16, 0, 1, True)]:
+        w = g.transparent_struct(inner, b, a, tu, de_only=True)
+        g.container([(u8, set()), (w, set()), (vec(u8), set())]); A(vec(w)); A(option(w))
     # enums
     for n in [1, 2, 3, 127, 128]:
         tg = g.tag_enum(n)
@@ -529,6 +543,11 @@ def build_fixed(g):
     # earlier variants that reject with an application-level error while a later one accepts
     g.enum("transparent", [vec(by["bool"]), vec(u8)]); g.enum("transparent", [bls[4], by["Bytes"]])
     g.enum("transparent", [vec(by["NonZeroUsize"]), vec(u64), by["Bytes"]])
+    # a fixed-size first variant with invalid bit patterns and a later variant that accepts inputs of the
+    # same length (round 10: A20)
+    g.enum("transparent", [by["bool"], u8]); g.enum("transparent", [ut, by["Bytes"]])
+    g.enum("transparent", [by["NonZeroUsize"], u64]); g.enum("transparent", [bvs[9], u16, by["Bytes"]])
+    g.enum("transparent", [u16, by["bool"], vec(u8)])
     # generic structs instantiated at several parameters
     g.items.append("""
 #[derive(Debug, Clone, PartialEq, Encode, Decode)]
